@@ -1,65 +1,27 @@
-import O2P.Model.Proto
-import O2P.Model.Sha256
-import O2P.Model.Routes
+import O2P.Drv.Common
+import O2P.Drv.Routes
 /-!
   Line-protocol driver: reads one operation per line on stdin, writes the model's canonical
-  answer per line on stdout.  Compiled as a core-only `lean_exe`.
+  answer per line on stdout.  Compiled as a core-only `lean_exe`.  Each `O2P/Drv/<X>.lean`
+  contributes a table of named operations; unknown or unparseable operations answer `bad-op`.
 -/
-open O2P O2P.Proto
+open O2P O2P.Drv
 
-/-- regex oracle table: the harness ships the real `regexp` verdicts (pattern, subject ↦ bool)
-    so that the regex engine stays a parameter of the model. Encoded as a list of
-    `pattern` `subject` `0/1` triples flattened in one field: hex,hex,b;hex,hex,b;… -/
-def parseRx (f : String) : Option (List (Str × Str × Bool)) :=
-  if f == "-" then some [] else
-  (f.splitOn ";").mapM (fun t => match t.splitOn "," with
-    | [p, s, v] => do pure ((← str p), (← str s), (← Proto.bool v))
-    | _ => none)
-
-def rxOf (tbl : List (Str × Str × Bool)) (p s : Str) : Bool :=
-  match tbl.find? (fun t => t.1 == p && t.2.1 == s) with
-  | some t => t.2.2
-  | none => false
-
-def opRoutes (fs : List String) : Option String :=
-  match fs with
-  | [legacy, rules, skipPre, trusted, method, path, rx] => do
-    let legacy ← strs legacy
-    let rules ← strs rules
-    let skipPre ← Proto.bool skipPre
-    let trusted ← Proto.bool trusted
-    let method ← str method
-    let path ← str path
-    let tbl ← parseRx rx
-    let routes := buildRoutes legacy rules
-    let parsed := ";".intercalate (routes.map (fun r => s!"{hex r.method},{b r.negate},{hex r.pattern}"))
-    pure s!"{b (isAllowedRequest (rxOf tbl) skipPre routes trusted method path)} {parsed}"
-  | _ => none
-
-def opSha (fs : List String) : Option String :=
-  match fs with
-  | [m] => do pure (hex (Sha.sha256 (← str m)))
-  | _ => none
-def opHmac (fs : List String) : Option String :=
-  match fs with
-  | [k, m] => do pure (hex (Sha.hmac (← str k) (← str m)))
-  | _ => none
+def allOps : List (String × Op) :=
+  routesOps
 
 def dispatch (line : String) : String :=
   match line.splitOn "\t" with
   | [] => "bad-op"
   | op :: fs =>
-    let r := match op with
-      | "routes" => opRoutes fs
-      | "sha256" => opSha fs
-      | "hmac" => opHmac fs
-      | _ => none
-    r.getD "bad-op"
+    match allOps.find? (fun o => o.1 == op) with
+    | some o => (o.2 fs).getD "bad-op"
+    | none => "bad-op"
 
 partial def loop (h : IO.FS.Stream) (out : IO.FS.Stream) : IO Unit := do
   let line ← h.getLine
   if line.isEmpty then return ()
-  let l := if line.back == '\n' then line.dropRight 1 else line
+  let l := if line.endsWith "\n" then String.ofList line.toList.dropLast else line
   out.putStrLn (dispatch l)
   loop h out
 
